@@ -44,6 +44,10 @@ impl<'a, B> Cow<'a, B> {
         match self { Cow::Borrowed(b) => b, Cow::Owned(b) => b }
     }
 }
+impl<'a, B> std::ops::Deref for Cow<'a, B> {
+    type Target = B;
+    fn deref(&self) -> (r: &B) ensures *r == self.view() { match self { Cow::Borrowed(b) => b, Cow::Owned(b) => b } }
+}
 impl<'a> Cow<'a, Val> {
     pub fn into_owned(self) -> (r: Val)
         ensures r == self.view()
